@@ -8,7 +8,7 @@
    -X; `spath g D [] s t p` says p is a simple path s -> t through pairs that have a price
    point at D, `at_most_one_path` that there is no second one (the property's quantifier:
    an edge, a reversed edge, a simple chain). *)
-From LedgerV Require Import Base.Prelude Gen.PriceMemo Gen.CostDate Model.Prices Proofs.PricesProofs.
+From LedgerV Require Import Base.Prelude Gen.PriceMemo Gen.CostDate Gen.PercentExpr Model.Prices Proofs.PricesProofs.
 Local Open Scope Z_scope.
 
 (* ---- which entry an edge offers: the latest not after D, the later insertion winning a tie ---- *)
@@ -148,6 +148,24 @@ Theorem posting_dates_do_not_move_a_cost_price : forall xp xa pp pa pp' pa' aq a
   entry_of (ICost (mkDates xp xa pp' pa') aq ac total cq cc virt).
 Proof. exact cost_entry_ignores_posting_dates. Qed.
 Print Assumptions posting_dates_do_not_move_a_cost_price.
+
+(* ---- --percent: a share is the quotient of two valuations made by the same rule ---- *)
+Theorem percent_market_calls_targeted :
+  percent_numerator_targeted = true /\ percent_denominator_targeted = true /\
+  immediate_amount_targeted = true.
+Proof. exact percent_calls_targeted. Qed.
+Print Assumptions percent_market_calls_targeted.
+
+Theorem percent_uses_one_valuation : forall l held pheld tgt D,
+  percent_row l held pheld tgt D = percent_of (bal_row l held tgt D) (bal_row l pheld tgt D).
+Proof. exact percent_row_same_rule. Qed.
+Print Assumptions percent_uses_one_valuation.
+
+Theorem percent_is_quotient_of_values : forall l held pheld t D cn qn cd qd,
+  bal_row l held (Some t) D = [(cn, qn)] -> bal_row l pheld (Some t) D = [(cd, qd)] ->
+  exists q, percent_row l held pheld (Some t) D = PVal q /\ (q == 100 * qn / qd)%Q.
+Proof. exact percent_row_quotient. Qed.
+Print Assumptions percent_is_quotient_of_values.
 
 (* ---- the memo of commodity_t::find_price ---- *)
 (* Recording a price clears every commodity's memo (commodity.cc:62-66): memoised lookups
